@@ -11,7 +11,7 @@ import os, sys, json, itertools
 import vlib
 
 LEVEL = 'proof'
-KINDS = ['varr', 'htab', 'dlist']  # 'bitmap' is switched on once fixes/C19-1.patch is committed to /repo
+KINDS = ['varr', 'bitmap', 'htab', 'dlist']
 
 
 # ------------------------------------------------------------------ generators
